@@ -311,8 +311,18 @@ def run_shard(rec, tier, seed, shard, nshards):
             screen = Screen(treatment_names=np.array([["a", "b"]] * n_rows, dtype=str), treatment_doses=np.ones((n_rows, 2)), sample_names=np.array(["s"] * n_rows, dtype=str), plate_names=pn)
             name_to_id = dict(zip([str(x) for x in screen.plate_mapping[0]], [int(x) for x in screen.plate_mapping[1]]))
             hetero_mode = bool(rng.random() < 0.6)
-            holder = ThetaHolder(n_thetas=T)
-            for ti in range(T):
+            class MirrorHolder(ThetaHolder):
+                """a user's collection type: keeps its samples in another internal order and answers get_theta(i) - the
+                accessor everything is documented to go through - in the logical one"""
+
+                def get_theta(self, i):
+                    return self.thetas[len(self.thetas) - 1 - int(i)]
+
+            mirror = bool(rng.random() < 0.25)
+            holder = MirrorHolder(n_thetas=T) if mirror else ThetaHolder(n_thetas=T)
+            if mirror:
+                rec.count("scorer_runs_on_a_user_defined_collection_type")
+            for ti in (range(T - 1, -1, -1) if mirror else range(T)):
                 mrow = np.zeros(n_rows)
                 vrow = np.zeros(n_rows)
                 for p in range(P):
